@@ -287,6 +287,20 @@ output_instance(ostream &out, int indent_level, CPPScope *scope,
   parm_string << "(";
   _parameters->output(parm_string, scope, true, num_default_parameters);
   parm_string << ")";
+
+  // The cv-qualifiers and the exception specification belong to this
+  // function's own declarator: when the return type continues the declarator
+  // (a pointer to array or function, as in int (*get() const)[3]), they have
+  // to stay next to the parameter list, not after the whole declaration.
+  if (_flags & F_const_method) {
+    parm_string << " const";
+  }
+  if (_flags & F_volatile_method) {
+    parm_string << " volatile";
+  }
+  if (_flags & F_noexcept) {
+    parm_string << " noexcept";
+  }
   string str = parm_string.str();
 
   if (_flags & (F_constructor | F_destructor)) {
@@ -321,15 +335,6 @@ output_instance(ostream &out, int indent_level, CPPScope *scope,
     }
   }
 
-  if (_flags & F_const_method) {
-    out << " const";
-  }
-  if (_flags & F_volatile_method) {
-    out << " volatile";
-  }
-  if (_flags & F_noexcept) {
-    out << " noexcept";
-  }
   if (_flags & F_final) {
     out << " final";
   }
